@@ -25,8 +25,17 @@ CHECKS = {
  "C18": dict(technique="Lean 4 proof for every capacity and check count + correspondence at the measured capacity boundary",
    text="Theorems C18_counts, C18_ok (Props/C18.lean): k checks on a channel of capacity cap give k counted and completion when k+1<=cap, else exactly cap counted and one exception; tie: capacity measured on the real pipe, runs at cap-2..cap+2 and 2-3xcap, passing/failing, overflowing test first/middle/last, forked and in-process.",
    ref="§6 C18"),
+ "C04": dict(technique="Lean 4 proof (forked results are a per-test function; parent runs no test code) + permutation/subset differential on the real library",
+   text="Theorems C04_isolated, C04_perm, C04_sublist (Model/PerTest.lean: mock mode, expectations, significant figures, a program global) and C04_delivery, C04_totals (Model/Runner.lean); tie: the same test set is run under several permutations, subsets and nestings with tests that switch mock mode, leave expectations pending, change significant figures, write a global, fail, skip or die; per-test reports are compared across orders and with the model.",
+   ref="§6 C04"),
+ "C13": dict(technique="Lean 4 proof (per-test reset makes in-process = forked) + three-mode differential on the real library",
+   text="Theorems reset_is_fresh, C13_inproc_eq_fork, C13_single_eq_fork, C13_delivery (Props/C13.lean); tie: every generated suite is run forked, with CGREEN_NO_FORK and test-by-test through run_single_test, per-test failures, message class and totals compared with each other and with the model.",
+   ref="§6 C13"),
+ "C17": dict(technique="Lean 4 proof (counts, result lines, verdict independent of the reporter) + six-reporter differential with independent XML parsing",
+   text="Theorem C17_agree (Props/C17.lean) over the one logic difference between reporters (suite finish through finish_test vs finish_suite); tie: each scenario runs under text, quiet, CUTE, XML, libxml2 and CDash, counts/attribution/verdict are recovered from each native format (expat for XML) and compared pairwise and with the model.",
+   ref="§6 C17"),
 }
-NOTES = {"C01": RUNNER_NOTE, "C02": RUNNER_NOTE, "C03": RUNNER_NOTE, "C08": RUNNER_NOTE, "C18": RUNNER_NOTE}
+NOTES = {"C04": RUNNER_NOTE + " C04 additionally assumes that fork() gives the child a private copy of all memory (isolation of arbitrary user memory is the kernel's).", "C13": RUNNER_NOTE + " The test program's own globals are not the framework's to reset; the theorem excludes tests that read a global another test wrote.", "C17": RUNNER_NOTE, "C01": RUNNER_NOTE, "C02": RUNNER_NOTE, "C03": RUNNER_NOTE, "C08": RUNNER_NOTE, "C18": RUNNER_NOTE}
 
 hooks_commits = subprocess.run(["git", "-C", "/repo", "log", "--format=%h %s", "--grep=^verif hook"], capture_output=True, text=True).stdout.strip().split("\n")
 m = {"version": 1, "setup_cmd": "./setup.sh",
